@@ -70,6 +70,10 @@ class Root(object):
     __slots__ = ("freed", "ptr")
 
 
+class _CallerError(Exception):
+    """Raised by the workload inside a with-block."""
+
+
 class MemioEngine(object):
     def __init__(self, world, tier):
         self.w = world
@@ -591,10 +595,18 @@ class MemioEngine(object):
         try:
             if use_with:
                 w.probe("with_block")
-                with v.obj as o:
-                    if o is not v.obj:
-                        w.violate("F", "with-block did not yield the view",
-                                  kind="with")
+                boom = self.t.draw(3) == 0
+                try:
+                    with v.obj as o:
+                        if o is not v.obj:
+                            w.violate("F", "with-block did not yield the "
+                                      "view", kind="with")
+                        if boom:
+                            # the block is left by the caller's exception
+                            w.probe("with_block_left_by_exception")
+                            raise _CallerError()
+                except _CallerError:
+                    pass
             else:
                 v.obj.close()
         except (OSError, IOError):
